@@ -275,6 +275,51 @@ static void run_fpmem (const int code) {
   REACH ("end");
 }
 
+/* link-time branch reversal (simplify_func rewrites 'bcc L1; jmp L2; L1:' with the reversed branch):
+   the reversed opcode must be taken exactly when the original is not, for all operand values; opcodes
+   with no exact complement (FP compares: NaN) must not be reversed at all. */
+void h_reverse_branch (void) {
+  int code = nondet_int ();
+  uint64_t a = nondet_u64 (), b = nondet_u64 ();
+  __CPROVER_assume (code >= 0 && code < MIR_INSN_BOUND);
+  MIR_insn_code_t r = MIR_reverse_branch_code ((MIR_insn_code_t) code);
+  int t = sem_branch (code, a, b);
+  if (t >= 0) {
+    ENS (r != MIR_INSN_BOUND ==> sem_branch (r, a, b) == !t, "reversed integer branch is taken exactly when the original is not");
+    REACH ("integer branch");
+  } else if (sem_fp_rel (code) >= 0) {
+    ENS (r == MIR_INSN_BOUND, "floating point branches/compares have no exact complement (NaN) and are not reversed");
+    REACH ("fp");
+  } else if (code == MIR_BO || code == MIR_BNO || code == MIR_UBO || code == MIR_UBNO) {
+    ENS (r == (code == MIR_BO ? MIR_BNO : code == MIR_BNO ? MIR_BO : code == MIR_UBO ? MIR_UBNO : MIR_UBO), "overflow branch reversal keeps the flag kind");
+  }
+  REACH ("end");
+}
+
+/* link-time algebraic shortcut (simplify_func replaces 'op r, x, imm' by 'mov r, x'): the stager copies
+   the guarding condition of that rewrite out of simplify_func into vp_shortcut_p (staging op slice_cond). */
+#ifdef VP_SHORTCUT
+static int vp_shortcut_p (MIR_insn_code_t code, MIR_insn_t insn);
+static struct { struct MIR_insn insn; MIR_op_t more[3]; } vp_sc;
+void h_shortcut (void) {
+  int code = nondet_int ();
+  uint64_t a = nondet_u64 ();
+  __CPROVER_assume (code >= 0 && code < MIR_INSN_BOUND);
+  vp_sc.insn.code = code;
+  vp_sc.insn.ops[2].mode = (MIR_op_mode_t) nondet_int ();
+  vp_sc.insn.ops[2].u.i = (int64_t) nondet_u64 ();
+  if (vp_shortcut_p ((MIR_insn_code_t) code, &vp_sc.insn)) {
+    sem_int_t s = sem_int3 (code, a, (uint64_t) vp_sc.insn.ops[2].u.i);
+    ENS (vp_sc.insn.ops[2].mode == MIR_OP_INT, "shortcut applies to an integer immediate only");
+    ENS (s.defined && sem_agree (s, a), "an insn rewritten to a move computes its first source operand for every value");
+    ENS (!sem_ovf (code, 0, 0).s_def && !sem_ovf (code, 0, 0).u_def,
+         "an insn that sets the overflow flag is not replaced by a move (a following BO/BNO reads the flag)");
+    REACH ("shortcut taken");
+  }
+  REACH ("end");
+}
+#endif
+
 /* ---- entry points: one per opcode (the list is generated by checks/c02.py into the define VP_ENTRIES) */
 #define E1(fn, a) void h_##fn##_##a (void) { run_##fn (a); }
 #define E2(fn, a, b) void h_##fn##_##a##_##b (void) { run_##fn (a, b); }
